@@ -122,11 +122,13 @@ Lemma eval_expr_jq e x : forall s s' v, eval_expr e x s = Ok (s', v) -> jq s s'.
 Proof.
   induction x as [z|n|a IHa f|a IHa b IHb|a IHa b IHb|a IHa b IHb]; intros s s' v H; cbn [eval_expr] in H.
   - injection H as <- _. apply jq_refl.
-  - dbind H as o. destruct o; [|discriminate]. injection H as <- _. apply jq_refl.
+  - dbind H as o. destruct o; injection H as <- _; apply jq_refl.
   - dbind H as [s1 v1]. apply IHa in E.
-    destruct v1; try discriminate.
+    destruct v1; try discriminate;
+      try (destruct (py_own_attr f); [discriminate|]);
+      try (injection H as <- _; exact E).
     + destruct (nth_error (heap s1) h); [|discriminate].
-      destruct (row_attr c f); [|discriminate]. injection H as <- _. exact E.
+      destruct (row_attr c f); injection H as <- _; exact E.
     + destruct (String.eqb f "id"); [|discriminate]. dbind H as [s2 i].
       injection H as <- _. apply touch_slot_jq in E0. eapply jq_trans; eassumption.
   - dbind H as [s1 v1]. dbind H as [s2 v2]. apply IHa in E. apply IHb in E0.
@@ -155,7 +157,7 @@ Proof.
       try (dbind H as [s1 t]; dbind H as w0; injection H as <- _;
            apply render_pieces_jq in E; exact E).
     dbind H as [s1 w]. apply eval_expr_jq in E.
-    destruct w; try (injection H as <- _; exact E).
+    destruct w; try discriminate; try (injection H as <- _; exact E).
     dbind H as w0. injection H as <- _. exact E.
   - dbind H as [s1 t]. dbind H as w0. injection H as <- _.
     apply render_pieces_jq in E. exact E.
@@ -197,7 +199,7 @@ Proof.
     dbind H as [s1 o]. dbind H as [s2 rest]. injection H as <- <-.
     assert (H1 : J s1 /\ mono s s1 /\ out s1 = out s /\
                  forall T i, o = ORef T i -> 1 <= i <= last_id s1 T).
-    { destruct v; try (injection E as <- <-; splits; [exact HJ|apply mono_refl|reflexivity|discriminate]).
+    { destruct v; try discriminate; try (injection E as <- <-; splits; [exact HJ|apply mono_refl|reflexivity|discriminate]).
       - destruct (nth_error (heap s) h) as [c|] eqn:Hc; [|discriminate]. injection E as <- <-.
         splits; [exact HJ|apply mono_refl|reflexivity|].
         intros T i Hq. injection Hq as <- <-. destruct HJ as [(B1 & _) _].
